@@ -5,8 +5,11 @@ package main
 import (
 	"go/ast"
 	"go/token"
+	"strconv"
 	"strings"
 )
+
+func c11Itoa(n int) string { return strconv.Itoa(n) }
 
 func init() { register("C11", factsC11) }
 
@@ -497,6 +500,146 @@ func factsC11(r *Repo) []Fact {
 				out = append(out, natFact("resumeBranches", blocks, "compose/graph_run.go: number of blocks of runner.run that call r.restoreTasks (top-level resume, sub-graph resume)"))
 			}
 		}
+	}
+
+	// ---- the two resume branches of runner.run, one by one ----
+	//   if isSubGraph { if cp := getCheckPointFromCtx(ctx); cp != nil { <sub block> } }
+	//   else if checkPointID != nil { …; if cp != nil { <top block> } }
+	// per block: setAlways = a direct statement `if cp.State != nil { ctx = WithValue(ctx, stateKey{},
+	// &internalState{state: cp.State}) }` (condition exactly that: independent of a modifier) before
+	// restoreTasks; oneHolder = exactly one internalState literal in the block, before restoreTasks,
+	// restoreTasks is called with that very `ctx`, and afterwards `ctx` is only re-assigned by
+	// setCheckPointToCtx(ctx, nil).
+	{
+		run, _ := cp.Func("runner", "run")
+		names := [][2]string{{"resumeTopSetAlways", "resumeTopOneHolder"}, {"resumeSubSetAlways", "resumeSubOneHolder"}}
+		var roots [2]ast.Node // 0 = top, 1 = sub
+		if run != nil {
+			ast.Inspect(run.Body, func(x ast.Node) bool {
+				ifs, ok := x.(*ast.IfStmt)
+				if !ok || roots[1] != nil {
+					return true
+				}
+				if id, ok := ifs.Cond.(*ast.Ident); ok && id.Name == "isSubGraph" && ifs.Else != nil {
+					roots[1] = ifs.Body
+					roots[0] = ifs.Else
+					return false
+				}
+				return true
+			})
+		}
+		for bi, root := range roots {
+			where := "compose/graph_run.go: runner.run, " + []string{"top-level", "sub-graph"}[bi] + " resume branch"
+			var blk *ast.BlockStmt
+			restoreIdx := -1
+			var restoreCall *ast.CallExpr
+			if root != nil {
+				ast.Inspect(root, func(x ast.Node) bool {
+					b, ok := x.(*ast.BlockStmt)
+					if !ok || blk != nil {
+						return true
+					}
+					for i, s := range b.List {
+						if as, ok := s.(*ast.AssignStmt); ok && len(as.Rhs) == 1 && c11IsCallTo(as.Rhs[0], "r.restoreTasks") {
+							blk, restoreIdx, restoreCall = b, i, as.Rhs[0].(*ast.CallExpr)
+						}
+					}
+					return true
+				})
+			}
+			if blk == nil {
+				out = append(out, unknownFact(names[bi][0], "Bool", "false", where, "`if isSubGraph {…} else …` or the block calling r.restoreTasks not found"))
+				out = append(out, unknownFact(names[bi][1], "Bool", "false", where, "`if isSubGraph {…} else …` or the block calling r.restoreTasks not found"))
+				continue
+			}
+			isCtxSet := func(y ast.Node) bool {
+				as, ok := y.(*ast.AssignStmt)
+				if !ok || len(as.Lhs) != 1 || len(as.Rhs) != 1 || exprString(as.Lhs[0]) != "ctx" {
+					return false
+				}
+				c, ok := as.Rhs[0].(*ast.CallExpr)
+				if !ok || exprString(c.Fun) != "context.WithValue" || len(c.Args) != 3 || exprString(c.Args[0]) != "ctx" || !c11HasStateKey(c.Args[1]) {
+					return false
+				}
+				u, ok := c.Args[2].(*ast.UnaryExpr)
+				if !ok || u.Op != token.AND {
+					return false
+				}
+				cl, ok := u.X.(*ast.CompositeLit)
+				if !ok || exprString(cl.Type) != "internalState" {
+					return false
+				}
+				for _, el := range cl.Elts {
+					if kv, ok := el.(*ast.KeyValueExpr); ok && exprString(kv.Key) == "state" && exprString(kv.Value) == "cp.State" {
+						return true
+					}
+				}
+				return false
+			}
+			setAlways := false
+			for _, s := range blk.List[:restoreIdx] {
+				ifs, ok := s.(*ast.IfStmt)
+				if !ok || ifs.Init != nil || ifs.Else != nil || exprString(ifs.Cond) != "cp.State!=nil" {
+					continue
+				}
+				for _, y := range ifs.Body.List {
+					if isCtxSet(y) {
+						setAlways = true
+					}
+				}
+			}
+			lits, litsBefore := 0, 0
+			ast.Inspect(blk, func(x ast.Node) bool {
+				if cl, ok := x.(*ast.CompositeLit); ok && cl.Type != nil && exprString(cl.Type) == "internalState" {
+					lits++
+					if cl.Pos() < blk.List[restoreIdx].Pos() {
+						litsBefore++
+					}
+				}
+				return true
+			})
+			plainCtx := len(restoreCall.Args) > 0 && exprString(restoreCall.Args[0]) == "ctx"
+			lateOK := true
+			for _, s := range blk.List[restoreIdx+1:] {
+				ast.Inspect(s, func(x ast.Node) bool {
+					if as, ok := x.(*ast.AssignStmt); ok {
+						for _, l := range as.Lhs {
+							if exprString(l) == "ctx" && !(len(as.Rhs) == 1 && exprString(as.Rhs[0]) == "setCheckPointToCtx(ctx,nil)") {
+								lateOK = false
+							}
+						}
+					}
+					return true
+				})
+			}
+			w1 := where + ": `if cp.State != nil { ctx = WithValue(ctx, stateKey{}, &internalState{state: cp.State}) }` as a statement of its own before restoreTasks"
+			if !setAlways {
+				w1 += " — NOT found in that form (missing, or nested under another condition such as a state modifier being supplied)"
+			}
+			out = append(out, boolFact(names[bi][0], setAlways, w1))
+			w2 := where + ": exactly one &internalState{…} in the branch, before restoreTasks; restoreTasks(ctx, …) gets that ctx; ctx afterwards only re-assigned by setCheckPointToCtx(ctx, nil)"
+			one := lits == 1 && litsBefore == 1 && plainCtx && lateOK
+			if !one {
+				w2 += " — NOT so: " + strings.Join([]string{"literals=" + c11Itoa(lits), "before=" + c11Itoa(litsBefore), "restoreTasks arg0=" + func() string {
+					if len(restoreCall.Args) > 0 {
+						return exprString(restoreCall.Args[0])
+					}
+					return "?"
+				}(), "ctx re-assigned later=" + map[bool]string{true: "no", false: "yes"}[lateOK]}, ", ")
+			}
+			out = append(out, boolFact(names[bi][1], one, w2))
+		}
+		// every place in the package that allocates a state holder (mutex)
+		sites := 0
+		for _, n := range cp.Names {
+			ast.Inspect(cp.Files[n], func(x ast.Node) bool {
+				if cl, ok := x.(*ast.CompositeLit); ok && cl.Type != nil && exprString(cl.Type) == "internalState" {
+					sites++
+				}
+				return true
+			})
+		}
+		out = append(out, natFact("holderAllocSites", sites, "compose: number of internalState{…} composite literals (graph.compile runCtx + one per resume branch of runner.run)"))
 	}
 
 	// ---- task pipeline order in graph_manager.go ----
